@@ -297,6 +297,9 @@ def fe_axis_drop(ctx):
 
 
 def run(ctx):
+    from ..shared import shared_container_rule as _shared_container_rule
+
+    _shared_container_rule(ctx, "R12.8", scope=lambda f, _s=("EasyFEA.FEM._linalg", "EasyFEA.FEM._field"): f.module.name.startswith(_s), min_instances=30)
     ctx.level = "other"
     ctx.explanation = (
         "The protocol dispatch of FeArray depends on run-time shapes and is NOT decided. Decided: the closed-form Det/Inv/Trace/Transpose/TensorProd are the tensor operation "
